@@ -4,9 +4,8 @@
 P=$(realpath "$1"); ID=$2; TIER=${3:-quick}
 cd /repo || exit 2
 if [ -n "$(git status --porcelain --untracked-files=no)" ]; then echo "repo not clean" >&2; exit 2; fi
-if ! git apply -3 "$P" 2>/tmp/apply.err; then
-  if ! patch -p1 --no-backup-if-mismatch < "$P" >/tmp/apply.err 2>&1; then cat /tmp/apply.err; git checkout -- .; exit 2; fi
-fi
+if ! git apply --check "$P" 2>/tmp/apply.err; then cat /tmp/apply.err; echo "patch does not apply to HEAD" >&2; exit 2; fi
+git apply "$P"
 git reset -q 2>/dev/null
 cd /verif && ./check "$ID" "$TIER" > /tmp/try_patch.out 2>&1; RC=$?
 grep -E "^(VIOLATION|KNOWN-FINDING|MACHINERY|C[0-9]+ (quick|thorough))" /tmp/try_patch.out | head -${LINES_MAX:-8}
